@@ -120,16 +120,11 @@ pub fn run_spaces(prop: &str, spaces: Vec<Space>, opts: &Opts, rep: &Report) {
         }
         for f in found {
             // replay twice for determinism before reporting
-            let r1 = replay_trace(&sp.sys, &f.trace, false);
-            let r2 = replay_trace(&sp.sys, &f.trace, false);
-            if r1 != r2 || r1.is_ok() {
-                eprintln!("MACHINERY ERROR: violation does not replay deterministically: {:?} vs {:?} (found: {})", r1, r2, f.what);
-                std::process::exit(2);
-            }
+            let note = crate::util::confirm_or_exit(prop, &f.what, || replay_trace(&sp.sys, &f.trace, false).err());
             let class = f.what.split(':').next().unwrap_or("").to_string();
             rep.violation(Violation::new(
                 format!("{}:{}", class, sp.name),
-                f.what.clone(),
+                format!("{}{note}", f.what),
                 json!({"kind": "syncworld-trace", "property": prop, "space": sp.name, "trace": trace_json(&f.trace), "observed": f.what}),
             ));
         }
